@@ -82,7 +82,30 @@ fn build_factors(fac: &Value) -> Outcome<Factors> {
                     let cm = fac["comment"].as_str().map(|c| format!(" # {}", c)).unwrap_or_default();
                     fac["lines"]
                         .as_array()
-                        .map(|a| a.iter().map(|f| format!("{}{}", render_factor(f), cm)).collect::<Vec<_>>().join("\n"))
+                        .map(|a| {
+                            // "layout": the same factors in an unusual but valid layout - a header line, metadata, remark and
+                            // blank lines between the factors, padded fields, further columns after the seventh
+                            let fancy = fac["layout"].as_bool().unwrap_or(false);
+                            let mut ls: Vec<String> = vec![];
+                            if fancy {
+                                ls.push("vector, fuente, uso, step, ren, nren, co2".to_string());
+                                ls.push("#META CTE_FUENTE: usuario".to_string());
+                            }
+                            for (i, f) in a.iter().enumerate() {
+                                let line = render_factor(f);
+                                if fancy {
+                                    let padded = line.split(", ").collect::<Vec<_>>().join(" \t,  ");
+                                    ls.push(format!("  {}, 99, extra{}  ", padded, cm));
+                                    if i % 2 == 0 {
+                                        ls.push("# nota".to_string());
+                                        ls.push(String::new());
+                                    }
+                                } else {
+                                    ls.push(format!("{}{}", line, cm));
+                                }
+                            }
+                            ls.join("\n")
+                        })
                         .unwrap_or_default()
                 }
             };
